@@ -70,15 +70,15 @@ def marginal_from_weight(w):
 
 
 def subjects(tier):
-    out = [('Toric2DCode', (2, 2)), ('Planar2DCode', (2, 3)), ('Toric3DCode', (2, 2, 2))]
+    out = [('Toric2DCode', (2, 2)), ('Planar2DCode', (2, 3)), ('Toric3DCode', (2, 2, 2)), ('XCubeCode', (2, 2, 2))]
     if tier != 'quick':
         out += [('RotatedPlanar2DCode', (3, 3)), ('RhombicToricCode', (2, 2, 2)),
-                ('Color488Code', (2, 2)), ('XCubeCode', (2, 2, 2)),
+                ('Color488Code', (2, 2)),
                 ('RotatedToric3DCode', (2, 3, 2)), ('Color666ToricCode', (1, 1))]
     res = []
     for name, size in out:
         vs = codes.deformation_variants(name)
-        pick = vs if tier != 'quick' else vs[:1] + vs[-2:]
+        pick = vs if (tier != 'quick' or name == 'XCubeCode') else vs[:1] + vs[-2:]
         for dn, kw in dict.fromkeys((d, tuple(sorted(k.items()))) for d, k in pick):
             res.append((name, size, dn, dict(kw)))
     return res
@@ -162,6 +162,24 @@ def drive(item):
                 for (_, _, attr) in matcher.edges():
                     for q in attr['fault_ids']:
                         rec[key].append([int(q) + 1, marginal_from_weight(attr['weight'])])
+        if name == 'XCubeCode' and pn > 0:
+            # the X-cube decoder matches in planes: the plane normal to an axis is a 2-D
+            # torus whose edges stand for the 3-D qubits along the two other axes.  The
+            # weight of a plane edge must be the LLR of the X-flip marginal of the 3-D
+            # qubits it stands for (one representative per axis: the channel of a
+            # qubit depends on its axis only)
+            from panqec.decoders import XCubeMatchingDecoder
+            xdec = XCubeMatchingDecoder(code, em, p)
+            rep = {a: next(int(i) for i, loc in enumerate(code.qubit_coordinates) if code.qubit_axis(loc) == a)
+                   for a in 'xyz'}
+            axes3 = {'x': {'x': 'y', 'y': 'z'}, 'y': {'x': 'x', 'y': 'z'}, 'z': {'x': 'x', 'y': 'y'}}
+            for plane, mdec in xdec.matching_decoder.items():
+                t2 = xdec.toric_code[plane]
+                for key, matcher in (('mwx', mdec.matcher_x), ('mwz', mdec.matcher_z)):
+                    for (_, _, attr) in matcher.edges():
+                        for q2 in attr['fault_ids']:
+                            a3 = axes3[plane][t2.qubit_axis(t2.qubit_coordinates[int(q2)])]
+                            rec['mwx'].append([rep[a3] + 1, marginal_from_weight(attr['weight'])])
         # BP-OSD priors (decoder on the plain code and, if a deformation is
         # named, on the deformed = non-CSS code) and conditional update
         if 0 < pn < den:
